@@ -415,3 +415,10 @@ def r07_9(ctx):
         new_reads = [x for x in obs if "true" in x]
         ctx.check(f"explicit/alias register {name} read and written in one behaviour: the read is of the old value", not new_reads, "READ_REG(..., false) or the variable initialised from it",
                   f"{obs}: the register's access class is W once any assignment to it was seen, and W registers are read as .new", fn_where(idx, fr))
+
+
+@rule("R07.10", "C07", "memory accesses, jumps and returns are lowered alike for every kind of address / data / target operand", min_instances=10)
+def r07_10(ctx):
+    from .c05 import statement_operand_kind_independence
+
+    statement_operand_kind_independence(ctx)
